@@ -27,6 +27,7 @@ class SignatureManager:
         entity.is_initial = False
         entity.is_after = False
         entity.is_before = False
+        entity.is_final = False
 
     @staticmethod
     def add_signature(entity: EntityComponent):
